@@ -26,9 +26,12 @@
     (6) model_follows_source: the conversion-call / pointer-update skeleton of VSread and VSwrite, the field
         order of the header codec and the length bookkeeping of VSsetname / VSsetclass in the CURRENT vrw.c / vio.c /
         vg.c are the ones the model was written from.
-    (7) header_size_change_is_flagged (full). *)
+    (7) header_size_change_is_flagged (full).
+    (8) vssizeof_is_read_size, vssizeof_order_independent, vssizeof_all_fields_is_record_size (full).
+    (9) spec_read_cells, spec_read_length, addresses_cover_buffer (full; S at list level, both interlaces).
+    (10) vsread_after_vswrite_is_projection (full, two or more fields): the list VSread delivers = read_buf (parse ...). *)
 From Coq Require Import ZArith List Bool Lia.
-Require Import H4.gen.Gen_VS H4.VSModel H4.VTableSpec H4.VSProofs H4.VSCodecProofs H4.VSChunkProofs H4.VSLayoutProofs H4.VSFullProofs.
+Require Import H4.gen.Gen_VS H4.VSModel H4.VTableSpec H4.VSProofs H4.VSCodecProofs H4.VSChunkProofs H4.VSLayoutProofs H4.VSFullProofs H4.VSDeepProofs.
 Import ListNotations.
 Local Open Scope Z_scope.
 
@@ -73,11 +76,9 @@ Print Assumptions vs_counts_consistent.
     i*recsize + b; NO_INTERLACE: base + n*o + j*w + i*sz + b); [buf_side il tot] is a buffer at address 0 in
     interlace il.  [foffs 0 fl] pairs every field of the schema with its offset in the writer's record, [roffs fl rl 0]
     every selected field with its offset in the reader's record.
-    NOT mechanised: the restatement of the conclusion as the list equality
-        out = read_buf (ur = FULL) rl (parse (uw = FULL) sizes nelt ubuf) 0 nelt
-    of VTableSpec.v.  [spec_table_cells] shows that [parse] puts the table's cells at these addresses; the same for
-    [layout] (a concat in the same order) is by inspection only.  Reads of a record range other than the whole of
-    what one VSwrite wrote follow from [vsread_projects_stream], which holds for an arbitrary stream. *)
+    The list-level form -- the delivered buffer IS the specification's read_buf of the table parsed from the writer's
+    buffer -- is [vsread_after_vswrite_is_projection] below (10).  Reads of a record range other than the whole of what
+    one VSwrite wrote follow from [vsread_projects_stream], which holds for an arbitrary stream. *)
 Theorem vsread_after_vswrite : forall w rl fil uw ur nelt vtbW pos nv ubuf r vtbR vtbR' lens out,
   Forall fld_ok (wl_fields w) -> offs_ok 0 (wl_fields w) -> wl_ivsize w = isum (wl_fields w) ->
   (2 <= length (wl_fields w))%nat -> rl_ok (wl_fields w) rl ->
@@ -209,7 +210,8 @@ Print Assumptions gather_scatter_generic.
 Theorem model_follows_source :
   VSwrite_skeleton = VSwrite_skeleton_modelled /\ VSread_skeleton = VSread_skeleton_modelled /\
   vpackvs_order = vpackvs_order_modelled /\ vunpackvs_order = vunpackvs_order_modelled /\
-  VSsetname_len_stmts = VSsetname_len_stmts_modelled /\ VSsetclass_len_stmts = VSsetclass_len_stmts_modelled.
+  VSsetname_len_stmts = VSsetname_len_stmts_modelled /\ VSsetclass_len_stmts = VSsetclass_len_stmts_modelled /\
+  VSsizeof_stmts = VSsizeof_stmts_modelled.
 Proof. exact model_follows_source_lemma. Qed.
 Print Assumptions model_follows_source.
 
@@ -293,3 +295,74 @@ Example ex_plans : p_chunks (write_plan 60000 40 0) = [17; 17; 6] /\ p_chunks (r
 Proof. vm_compute. repeat split. Qed.
 Example ex_comps_nonempty : length (wr_c_comps ex_fl 100 0 0 16 16) = 4%nat /\ length (rd_c_comps ex_fl [2; 0] 100 0 0 16 12) = 2%nat.
 Proof. vm_compute. split; reflexivity. Qed.
+
+(** (8) VSsizeof: for EVERY field list (subsets, permutations, repetitions, unknown names) VSsizeof(fields) is the size of one
+    record of the buffer VSread fills after VSsetfields(fields) -- both fail together --; it does not depend on the order
+    of the names; for the NULL list it is the whole record.  (The size added for a name is that of the MATCHING field:
+    statement [totalsize += vs->wlist.esize[j]] tied by model_follows_source.) *)
+Theorem vssizeof_is_read_size : forall fl names,
+  m_vssizeof fl (Some names) =
+  match m_setfields_r (map w_name fl) names with Some rl => uvsize_of fl rl | None => None end.
+Proof. exact vssizeof_is_read_size_lemma. Qed.
+Print Assumptions vssizeof_is_read_size.
+Theorem vssizeof_order_independent : forall fl rl rl', Permutation.Permutation rl rl' -> rl_ok fl rl -> rsum fl rl = rsum fl rl'.
+Proof. exact rsum_perm. Qed.
+Print Assumptions vssizeof_order_independent.
+Theorem vssizeof_all_fields_is_record_size : forall fl, Forall fld_ok fl -> m_vssizeof fl None = Some (isum fl).
+Proof. exact vssizeof_all_fields. Qed.
+Print Assumptions vssizeof_all_fields_is_record_size.
+Example ex_sizeof : m_vssizeof ex_fl (Some [[67]; [65]]) = Some 12 /\ m_vssizeof ex_fl (Some [[65]; [67]]) = Some 12 /\
+  m_vssizeof ex_fl (Some [[66]; [66]]) = Some 8 /\ m_vssizeof ex_fl (Some [[65]; [90]]) = None /\ m_vssizeof ex_fl None = Some 16.
+Proof. vm_compute. repeat split. Qed.
+
+(** (9) S, list level: what read_buf delivers, cell by cell and in total, for BOTH buffer interlaces, every table of n
+    records whose selected values have the sizes ss, every read list rl (subsets, permutations, repetitions): byte k of
+    the p-th selected field of record I sits at address
+        I * recsize + off_p + k   (FULL_INTERLACE)      n * off_p + I * size_p + k   (NO_INTERLACE),   off_p = sum of the sizes before p,
+    the delivered buffer has n * recsize bytes, and every position of it is such an address -- so these cells determine the
+    whole list (used by (10)). *)
+Theorem spec_read_cells : forall full T n rl ss I p k, shaped T n rl ss -> (I < n)%nat -> (p < length rl)%nat -> (k < nth p ss 0)%nat ->
+  nth (addrN full (VTableSpec.sum ss) n (VTableSpec.sum (firstn p ss)) (nth p ss 0%nat) I k) (read_buf full rl T 0 n) 0 =
+  nth k (nth (nth p rl 0%nat) (nth I T []) []) 0.
+Proof. exact read_buf_cell. Qed.
+Print Assumptions spec_read_cells.
+Theorem spec_read_length : forall full T n rl ss, shaped T n rl ss -> length (read_buf full rl T 0 n) = (n * VTableSpec.sum ss)%nat.
+Proof. exact read_buf_length. Qed.
+Print Assumptions spec_read_length.
+Theorem addresses_cover_buffer : forall full ss n a, (a < n * VTableSpec.sum ss)%nat ->
+  exists I p k, (I < n)%nat /\ (p < length ss)%nat /\ (k < nth p ss 0)%nat /\
+                a = addrN full (VTableSpec.sum ss) n (VTableSpec.sum (firstn p ss)) (nth p ss 0%nat) I k.
+Proof. exact addrN_onto. Qed.
+Print Assumptions addresses_cover_buffer.
+Example ex_shaped : shaped (parse false [4; 4; 8]%nat 2 (map Z.of_nat (seq 1 32))) 2 [2; 0]%nat [8; 4]%nat /\
+  nth (addrN false 12 2 8 4 1 2) (read_buf false [2; 0]%nat (parse false [4; 4; 8]%nat 2 (map Z.of_nat (seq 1 32))) 0 2) 0 = 7.
+Proof.
+  split; [|vm_compute; reflexivity].
+  split; [reflexivity|]. split; [reflexivity|].
+  intros I p HI Hp. destruct I as [|[|I]]; [| |lia]; destruct p as [|[|p]]; try (cbn in Hp; lia); vm_compute; reflexivity.
+Qed.
+
+(** (10) READ AFTER WRITE AGAINST THE SPECIFICATION, full strength for Vdatas of two or more fields: for every well-formed
+    write list, both file interlaces, both user interlaces on the write side and on the read side, every read list of valid
+    indices (subsets, permutations, repetitions), every record count, every transfer-buffer size before either call:
+    the list VSread delivers is exactly  read_buf ur rl (parse uw sizes nelt ubuf) 0 nelt  of VTableSpec.v -- the
+    projection of the table the specification reads out of the writer's buffer. *)
+Theorem vsread_after_vswrite_is_projection : forall w rl fil uw ur nelt vtbW pos nv ubuf r vtbR vtbR' lens out,
+  Forall fld_ok (wl_fields w) -> offs_ok 0 (wl_fields w) -> wl_ivsize w = isum (wl_fields w) ->
+  (2 <= length (wl_fields w))%nat -> rl_ok (wl_fields w) rl ->
+  (fil = 0 \/ fil = 1) -> (uw = 0 \/ uw = 1) -> (ur = 0 \/ ur = 1) -> 0 < nelt ->
+  Z.of_nat (length ubuf) = nelt * isum (wl_fields w) ->
+  m_vswrite w fil uw nelt vtbW pos nv ubuf = Some r ->
+  m_vsread w rl fil ur nelt vtbR (concat (wr_chunks r)) = Some (vtbR', lens, out) ->
+  out = read_buf (ur =? FULL_INTERLACE) (rlN_of rl)
+                 (parse (uw =? FULL_INTERLACE) (szs_of (wl_fields w)) (Z.to_nat nelt) ubuf) 0 (Z.to_nat nelt).
+Proof. exact vsread_after_vswrite_lists_lemma. Qed.
+Print Assumptions vsread_after_vswrite_is_projection.
+(** the instance of ex_write_read_file_none / ex_spec_agrees: hypotheses met, both sides computed *)
+Example ex_projection :
+  let w := mkwl ex_fl 16 in
+  let ubuf := map Z.of_nat (seq 1 32) in
+  rlN_of [2; 0] = [2; 0]%nat /\ szs_of ex_fl = [4; 4; 8]%nat /\ Z.of_nat (length ubuf) = 2 * isum ex_fl /\
+  read_buf (1 =? FULL_INTERLACE) (rlN_of [2; 0]) (parse (0 =? FULL_INTERLACE) (szs_of ex_fl) (Z.to_nat 2) ubuf) 0 (Z.to_nat 2) =
+    [9;10;11;12;13;14;15;16; 25;26;27;28;29;30;31;32; 1;2;3;4; 17;18;19;20].
+Proof. vm_compute. repeat split. Qed.
